@@ -681,6 +681,45 @@ def trr_byte_order(ctx, rid="R-13.10", what=""):
                 ctx.ok(rid, b.ast, "magic number differs as read: every path to the next read exchanges the byte order")
 
 
+def no_midframe_resume(ctx):
+    """While the TRR reader waits for the data block of a frame whose header it has already
+    consumed, the file position is inside a frame. The only way out of that wait without the data
+    is to stop reading altogether (`self.stop_read = True`): a bare `break` hands control back to
+    the outer loop, whose process-finished branch assumes a frame boundary and parses the rest of
+    the file - starting with the half-written data block - as headers (struct.error instead of
+    the frames that are complete on disk)."""
+    rid = "R-13.11"
+    f = ctx.tree.func(GROMACS, "GromacsRunner.get_gromacs_frames")
+    cfg = cfg_of(f)
+    waits = [w for w in walk_local(f) if isinstance(w, ast.While) and any(isinstance(c, ast.Call) and last_name(c) in ("get_data", "read_trr_data") for c in ast.walk(w))
+             and not any(isinstance(c, ast.Call) and last_name(c) == "read_trr_header" for c in ast.walk(w))]
+    if not waits:
+        raise AnalysisError("R-13.11: the wait loop for a frame's data block was not found in get_gromacs_frames")
+    n = 0
+    for w in waits:
+        head = cfg.node_of(w.test)
+        stops = [cfg.node_of(st) for st in ast.walk(w) if isinstance(st, ast.Assign) and path_of(st.targets[0]) == "self.stop_read" and isinstance(st.value, ast.Constant) and st.value.value is True]
+        brs = [b for b in ast.walk(w) if isinstance(b, ast.Break) and next((p for p in _enclosing(b) if isinstance(p, (ast.While, ast.For))), None) is w]
+        rets = [r for r in ast.walk(w) if isinstance(r, ast.Return)]
+        for b in brs + rets:
+            n += 1
+            if cfg.reaches(head, cfg.node_of(b), avoid=stops, labels_excluded=("exc",)):
+                ctx.bad(rid, b, "the reader leaves the wait for a frame's data block (header already consumed) without setting stop_read: the outer loop continues from a position inside the frame, and its process-finished branch parses the half-written data as a header (struct.error / 'Unknown format') instead of returning only the frames that are complete on disk", construct="get_gromacs_frames: break out of the data wait without stop_read")
+            else:
+                ctx.ok(rid, b, "leaving the data wait without the data stops the reader (stop_read set first)")
+    if n == 0:
+        ctx.ok(rid, waits[0], "the data wait is left only with the data", nontrivial=False)
+
+
+def _enclosing(node):
+    out = []
+    p_ = getattr(node, "_parent", None)
+    while p_ is not None and not isinstance(p_, (ast.FunctionDef, ast.AsyncFunctionDef)):
+        out.append(p_)
+        p_ = getattr(p_, "_parent", None)
+    return out
+
+
 def run(ctx):
     ctx.rule("R-13.6", "line-index arithmetic never divides by a block size that still holds its zero initialiser (no exception on a partial first line)", floor=1)
     ctx.rule("R-13.5", "the byte count that gates the first TRR header read covers the largest header (struct formats of read_trr_header, double precision)", floor=1)
@@ -706,9 +745,12 @@ def run(ctx):
     ctx.attempt(seek_discipline, ctx)
     ctx.rule("R-13.10", "TRR byte order: swapped exactly when the magic number read big-endian differs from the GROMACS magic (both byte orders are read while mdrun runs)", floor=2)
     ctx.attempt(trr_byte_order, ctx)
+    ctx.rule("R-13.11", "the TRR reader never resumes from inside a frame: the wait for a data block whose header was consumed is left without the data only after stop_read was set", floor=1)
+    ctx.attempt(no_midframe_resume, ctx)
 
 
 VARIANTS = [
+    B("c13-trr-data-wait-left-without-stop", GROMACS, "                                    self.stop_read = True\n                                    break\n", "                                    break\n", "R-13.11", control=True, why="seeded C13_l"),
     B("c13-trr-swap-only-when-unrecognised", GROMACS, "        if not magic == _GROMACS_MAGIC:\n            logger.critical(\n                \"TRR file might be inconsistent! Could find _GROMACS_MAGIC\"\n            )\n        endian = swap_endian(endian)\n", "        if not magic == _GROMACS_MAGIC:\n            logger.critical(\n                \"TRR file might be inconsistent! Could find _GROMACS_MAGIC\"\n            )\n            endian = swap_endian(endian)\n", "R-13.10", control=True, why="seeded C13_k"),
     K("c13-keep-trr-magic-test-inverted", GROMACS, "    if magic == _GROMACS_MAGIC:\n        pass\n    else:\n        magic = swap_integer(magic)\n        if not magic == _GROMACS_MAGIC:\n            logger.critical(\n                \"TRR file might be inconsistent! Could find _GROMACS_MAGIC\"\n            )\n        endian = swap_endian(endian)\n", "    if magic != _GROMACS_MAGIC:\n        if swap_integer(magic) != _GROMACS_MAGIC:\n            logger.critical(\n                \"TRR file might be inconsistent! Could find _GROMACS_MAGIC\"\n            )\n        endian = swap_endian(endian)\n"),
     B("c13-poll-skips-to-end-when-size-unchanged", ENGPARTS, "                self.file_object.seek(self.current_position)\n", "                if os.path.getsize(self.file_path) == getattr(self, \"_size\", -1):\n                    self.file_object.seek(0, 2)\n                else:\n                    self.file_object.seek(self.current_position)\n                self._size = os.path.getsize(self.file_path)\n", "R-13.9", control=True, why="seeded C13_i"),
